@@ -368,7 +368,47 @@ func noInverse(p Path) Path {
 // contexts (bare, not, if-part, then-part, else-part, inside and, inside or), combined by or / and / not-and / if-then /
 // if-then-else in both operand orders: every way two quantified variables can end up in one generated rule body.
 // Cardinality atoms only, so the classical reading is the specification on every graph.
+// wide: one validation with 24..31 nested / quantified constraints, each over a property of its own (every one takes a fresh
+// variable: the 25th and later ones come after the one-letter names); three parents whose children fail different ones
+func genC01Wide(g *G, id int) C01Case {
+	c := C01Case{Op: "c01", Id: id, Stream: "scopes"}
+	k := 24 + g.n(8)
+	c.Atoms = []Atom{{Kind: "minCount", Path: PP("q", false), Arg: i64p(1)}}
+	good, bad := Node{Id: nodeId(100), Types: []string{NS + "K"}, Props: []Prop{{NS + "q", []Val{VS("x")}}}}, Node{Id: nodeId(101), Types: []string{NS + "K"}, Props: []Prop{{NS + "r", []Val{VS("y")}}}}
+	var body []Rule
+	for j := 0; j < k; j++ {
+		c.Paths = append(c.Paths, PP(fmt.Sprintf("c%d", j), false))
+		r := Rule{Nested: &Rule{Atom: ip(0)}, PathIx: ip(j)}
+		if j%5 == 3 {
+			r.Q = &Quant{Op: "ge", K: 1}
+		}
+		body = append(body, r)
+	}
+	rule := Rule{And: body}
+	if g.coin(0.3) {
+		rule = Rule{Or: body}
+	}
+	c.Validations = []Validation{{Name: "v0", Class: NS + "T", Rule: rule}}
+	for t := 0; t < 4; t++ {
+		n := Node{Id: nodeId(t), Types: []string{NS + "T"}, Props: []Prop{}}
+		failAt := []int{g.n(k + 1), 22 + g.n(6), 23 + g.n(4), k}[g.n(4)] // k = none fails; the positions around the 25th variable get extra weight
+		for j := 0; j < k; j++ {
+			kid := good.Id
+			if j == failAt || (t == 3 && g.coin(0.5)) {
+				kid = bad.Id
+			}
+			n.Props = append(n.Props, Prop{Iri: NS + fmt.Sprintf("c%d", j), Vals: []Val{VR(kid)}})
+		}
+		c.Graph = append(c.Graph, n)
+	}
+	c.Graph = append(c.Graph, good, bad)
+	return c
+}
+
 func genC01Scopes(g *G, id int) C01Case {
+	if id%8 == 7 {
+		return genC01Wide(g, id)
+	}
 	c := C01Case{Op: "c01", Id: id, Stream: "scopes"}
 	nA := 3
 	for j := 0; j < nA; j++ {
